@@ -213,7 +213,7 @@ fn main() {
     ctx.assume("stationarity oracle: own f64 gradient norm at the returned parameters <= 10 x gradient_tolerance (1e-4; logistic models: max_iterations 1000 = 10 x default, and a fit that fails the test is refitted with max_iterations 5000 and judged on that refit; Tweedie: max_iter 300 = 3 x default for 1..3 parameters) OR objective within 1e-8 * max(1,|J*|) of the own damped-Newton minimum (logistic: from zero, convex; Tweedie: Newton descent started at the returned point); a violation needs BOTH to fail");
     ctx.assume("domain, alpha = 0: binary by an exact integer cone test (no non-zero (w,b) with y_i (x_i.w+b) >= 0 for all i; quasi-complete separation counts as separable because no finite maximiser exists); multinomial by an own Newton solve from zero that reaches gradient norm <= 1e-10*max|x| with all score spreads <= 15");
     ctx.assume("Tweedie domain: targets inside the support; the documented start (coef 0, intercept link(mean y)) has a finite objective; an own Newton solve from that start certifies an interior stationary point with |linear predictor| <= 30; everything else is counted out_of_domain");
-    ctx.assume("every Tweedie fit (and the predictions of the fitted model) runs in a child process of this binary and must return before it has used 3000 ms of CPU time (largest CPU time of a returning child is in the evidence): a library call that never returns cannot be interrupted in-process. Identity link with power >= 1: the deviance is undefined for linear predictors <= 0, so an Err from the solver is accepted there (counted); returned parameters must still be stationary");
+    ctx.assume("every Tweedie fit (and the predictions of the fitted model) runs in a child process of this binary and must return before it has used 1500 ms of CPU time (largest CPU time of a returning child is in the evidence): a library call that never returns cannot be interrupted in-process. Identity link with power >= 1: the deviance is undefined for linear predictors <= 0, so an Err from the solver is accepted there (counted); returned parameters must still be stationary");
     ctx.assume("probabilities: finite, in [0,1], equal to the own sigmoid / softmax of x.w+b within 1e-9, multinomial rows sum to 1 within 1e-9; decision: binary class must follow p > threshold outside a 1e-9 margin (inside: indeterminate), except that p bit-equal to the threshold must give the positive class ('minimum probability needed', rustdoc); multinomial: any class within 1e-9 of the row maximum is accepted");
     ctx.assume("which of the two classes is coded +1 is NOT demanded (rustdoc of label_classes says 'larger by PartialOrd', the existing test simple_example_1 pins 'more frequent, first seen on ties'): the oracle reads the coding from labels() and only demands the class SET; both rules are tallied in the evidence");
     ctx.assume("Tweedie predictions: range of the link is taken closed (exp may saturate to 0 / +inf at |x.w| ~ 1e3), values equal the own inverse link within 1e-9 relative");
